@@ -6,6 +6,7 @@
 import PM.Step
 import Proofs.StepToks
 import Proofs.MarkEffect
+import Proofs.MarkPlan
 import Props.C14
 namespace PM.C13
 open PM
@@ -175,5 +176,140 @@ theorem retype_keeps_children (S : Schema) (doc doc' : Node) (pos size : Nat) (n
     rw [hgap] at e
     have := retype_arith (ftoks doc.kids) (Tok.op ty a ms) Tok.cl pos size hsz hle _ e
     simpa [Node.toks] using this
+
+/-! ### the planners of `Transform` (PM/MarkPlan.lean): `remove_mark` -/
+
+/-- **`Transform.remove_mark(from, to, mark | mark type | None)`** — the whole operation: the walk
+    with its range coalescing plans `planRemoveMarkSteps`, which are applied in order.  If the
+    operation goes through, the recorded steps are exactly the planned ones, the length, structure
+    and text are unchanged, every inline token inside `[f, t)` keeps exactly the marks the selector
+    does not match (equal mark / same type / any), and every other token is unchanged. -/
+theorem planRemoveMark_effect (S : Schema) (tr tr' : Tr) (f t : Nat) (sel : MarkSel)
+    (h : tr.removeMark S f t sel = .ok tr') :
+    let old := ftoks tr.doc.kids
+    let new := ftoks tr'.doc.kids
+    tr'.steps = tr.steps ++ planRemoveMarkSteps S tr.doc f t sel ∧
+    new.length = old.length ∧
+    ∀ i, i < old.length →
+      (tokAt new i).shape = (tokAt old i).shape ∧
+      ((f ≤ i ∧ i < t ∧ isInlineTok S (tokAt old i) = true) →
+        (tokAt new i).marks = (tokAt old i).marks.filter (fun x => !sel.matches x)) ∧
+      (¬ (f ≤ i ∧ i < t ∧ isInlineTok S (tokAt old i) = true) → tokAt new i = tokAt old i) := by
+  intro old new
+  unfold Tr.removeMark planRemoveMark at h
+  split at h
+  · rename_i sts hsts
+    split at hsts
+    · simp at hsts
+    · simp only [Except.ok.injEq] at hsts
+      subst hsts
+      obtain ⟨ha, hs⟩ := Tr.stepAll_spec S _ tr tr' h
+      obtain ⟨_, hlen, hp⟩ := planRemoveMarkSteps_toks S tr.doc tr'.doc f t sel ha
+      refine ⟨hs, hlen, fun i hi => ?_⟩
+      simp only [tokAt, old, new]
+      rw [hp i hi]
+      by_cases hr : f ≤ i ∧ i < t
+      · rw [if_pos hr]
+        refine ⟨rmTok_shape S _ _, fun hc => rmTok_marks S _ _ hc.2.2, fun hc => ?_⟩
+        have : ¬ isInlineTok S ((ftoks tr.doc.kids).getD i Tok.cl) = true := fun hin => hc ⟨hr.1, hr.2, hin⟩
+        unfold rmTok; rw [if_neg this]
+      · rw [if_neg hr]
+        exact ⟨rfl, fun hc => absurd ⟨hc.1, hc.2.1⟩ hr, fun _ => rfl⟩
+  · simp at h
+
+/-- consequence: afterwards no inline content inside the range carries a matching mark -/
+theorem planRemoveMark_none_left (S : Schema) (tr tr' : Tr) (f t : Nat) (sel : MarkSel)
+    (h : tr.removeMark S f t sel = .ok tr') (i : Nat) (hi : i < (ftoks tr.doc.kids).length)
+    (hr : f ≤ i ∧ i < t) (ha : isInlineTok S (tokAt (ftoks tr.doc.kids) i) = true) :
+    ∀ x ∈ (tokAt (ftoks tr'.doc.kids) i).marks, sel.matches x = false := by
+  have hm := ((planRemoveMark_effect S tr tr' f t sel h).2.2 i hi).2.1 ⟨hr.1, hr.2, ha⟩
+  rw [hm]
+  intro x hx
+  simpa using (List.mem_filter.mp hx).2
+
+/-! ### the planners of `Transform`: `add_mark` -/
+
+/-- unfolding `Tr.addMark`: the recorded steps are the planned ones and the new document is the
+    result of applying them in order -/
+theorem addMark_steps (S : Schema) (tr tr' : Tr) (f t : Nat) (m : Mark) (h : tr.addMark S f t m = .ok tr') :
+    tr'.steps = tr.steps ++ planAddMarkSteps S tr.doc f t m ∧
+    S.applyAll (planAddMarkSteps S tr.doc f t m) tr.doc = .ok tr'.doc := by
+  unfold Tr.addMark planAddMark at h
+  split at h
+  · rename_i sts hsts
+    split at hsts
+    · simp at hsts
+    · simp only [Except.ok.injEq] at hsts
+      subst hsts
+      obtain ⟨ha, hs⟩ := Tr.stepAll_spec S _ tr tr' h
+      exact ⟨hs, ha⟩
+  · simp at h
+
+/-- **`Transform.add_mark(from, to, mark)`** — the whole operation (walk, coalescing, first the
+    `RemoveMarkStep`s for displaced marks, then the `AddMarkStep`s), for *every* document.
+    If it goes through: length, structure and text are unchanged, and for every token `i`
+    * (carries) an inline atom inside `[f, t)` whose enclosing node allows the mark type carries the
+      mark afterwards, unless a mark already present excludes it (and is not excluded by it);
+    * (not invented) the mark appears only on such tokens or where it already was;
+    * (other marks) no other mark is invented, and every other mark the new mark does not exclude
+      is kept;
+    * (outside) tokens outside `[f, t)` are unchanged. -/
+theorem planAddMark_effect (S : Schema) (tr tr' : Tr) (f t : Nat) (m : Mark)
+    (h : tr.addMark S f t m = .ok tr') :
+    let old := ftoks tr.doc.kids
+    let new := ftoks tr'.doc.kids
+    let qualifies := fun i => f ≤ i ∧ i < t ∧ isAtomTok S (tokAt old i) = true ∧
+      (S.nodeType (ctxAt (S.tyOf tr.doc) old i)).allowsMarkType m.ty = true
+    tr'.steps = tr.steps ++ planAddMarkSteps S tr.doc f t m ∧
+    new.length = old.length ∧
+    ∀ i, i < old.length →
+      (tokAt new i).shape = (tokAt old i).shape ∧
+      (qualifies i → m ∈ (tokAt new i).marks ∨
+        ∃ o ∈ (tokAt old i).marks, S.excludes o.ty m.ty = true ∧ S.excludes m.ty o.ty = false) ∧
+      (m ∈ (tokAt new i).marks → m ∈ (tokAt old i).marks ∨ qualifies i) ∧
+      (∀ x, x ≠ m →
+        (x ∈ (tokAt new i).marks → x ∈ (tokAt old i).marks) ∧
+        (x ∈ (tokAt old i).marks → S.excludes m.ty x.ty = false → x ∈ (tokAt new i).marks)) ∧
+      (¬ (f ≤ i ∧ i < t) → tokAt new i = tokAt old i) := by
+  intro old new qualifies
+  obtain ⟨hs, ha⟩ := addMark_steps S tr tr' f t m h
+  obtain ⟨hlen, hp⟩ := planAddMarkSteps_effect S tr.doc tr'.doc f t m ha
+  exact ⟨hs, hlen, hp⟩
+
+/-- **`Transform.add_mark`, exact form**: when every inline node the walk visits is a leaf or a text
+    node (no marked inline node *with content* in the range — true for every document of the bundled
+    schemas), the operation does exactly what the documented rule says: an inline atom inside
+    `[f, t)` whose enclosing node allows the mark type gets `addSpec` (C14) of its old marks,
+    and every other token is unchanged.
+
+    Without the hypothesis the exact statement is false in the code (upstream as well): the
+    `RemoveMarkStep` planned for an inline node *with content* spans its content too and strips the
+    displaced mark from children that cannot take the new mark (e.g. a text child with marks
+    `{x, o}`, `m` excludes `x`, `o` excludes `m`, inside a span carrying `x`: the child ends as `{o}`
+    instead of the documented `{x, o}`); `planAddMark_effect` is what holds in general. -/
+theorem planAddMark_exact (S : Schema) (tr tr' : Tr) (f t : Nat) (m : Mark)
+    (hflat : ∀ v ∈ S.docVisits tr.doc f t, S.nodeInline v.node = true → v.node.isLeaf = true)
+    (h : tr.addMark S f t m = .ok tr') :
+    let old := ftoks tr.doc.kids
+    let new := ftoks tr'.doc.kids
+    new.length = old.length ∧
+    ∀ i, i < old.length →
+      ((f ≤ i ∧ i < t ∧ isAtomTok S (tokAt old i) = true ∧
+          (S.nodeType (ctxAt (S.tyOf tr.doc) old i)).allowsMarkType m.ty = true) →
+        tokAt new i = (tokAt old i).withMarks (C14.addSpec S m (tokAt old i).marks)) ∧
+      (¬ (f ≤ i ∧ i < t ∧ isAtomTok S (tokAt old i) = true ∧
+          (S.nodeType (ctxAt (S.tyOf tr.doc) old i)).allowsMarkType m.ty = true) →
+        tokAt new i = tokAt old i) := by
+  intro old new
+  obtain ⟨_, ha⟩ := addMark_steps S tr tr' f t m h
+  obtain ⟨hlen, hp⟩ := planAddMarkSteps_exact S tr.doc tr'.doc f t m hflat ha
+  refine ⟨hlen, fun i hi => ?_⟩
+  simp only [tokAt, ctxAt, old, new]
+  rw [hp i hi]
+  constructor
+  · intro hc
+    rw [if_pos hc, C14.addToSet_spec]
+  · intro hc
+    rw [if_neg hc]
 
 end PM.C13
